@@ -146,3 +146,13 @@ Definition delta_build_ignoring (ign : nat -> path -> bool) (nb : nat) (st : ist
   let c := filter (fun p => existsb (fun b => is_some (lookup (tree_of last b) p) && chg b p) (seq 0 nb)) (delta_cands nb last cur) in
   let d := gen_docs nb cur (delta_cands nb last cur) (fun b p => chg b p || memN p c) in
   mkState (map (add_tombs c) (st_stack st) ++ (match d with [] => [] | _ => [mkLayer d []] end)) cur.
+
+(** The code BEFORE the repair `fix: Builder.Finish removes a left-over .meta at the name of a new shard ...` (b31ad3a), in a
+    directory where a ".meta" sidecar WITHOUT shard waits at the next shard number (left by a run killed between removing a
+    shard and its sidecar): the new layer of a delta build is read through that sidecar, i.e. it starts with the stale
+    FileTombstones [t] instead of none.  [delta_build] is [delta_build_adopting []].  Used only in Props/C13.v
+    (C13_orphan_sidecar_before_fix_refuted). *)
+Definition delta_build_adopting (t : list path) (nb : nat) (st : istate) (cur : snap) : istate :=
+  let c := delta_changed nb (st_last st) cur in
+  let d := delta_docs nb (st_last st) cur in
+  mkState (map (add_tombs c) (st_stack st) ++ (match d with [] => [] | _ => [mkLayer d t] end)) cur.
